@@ -611,7 +611,7 @@ pub fn build(tier: &str) -> SimCheck {
         scenarios,
         oracle: Box::new(oracle),
         bound: 1,
-        limits: Limits { max_wall_s: if thorough { 1500.0 } else { 50.0 }, ..Default::default() },
+        limits: Limits { max_wall_s: if thorough { 1500.0 } else { 150.0 }, ..Default::default() },
         rule: "scenario = statement cache on/off x victim program x cut point (every message boundary; every byte offset inside the messages of 4 programs in quick, of all programs in thorough) x ending (natural, Terminate, hard drop, FIN, 5 malformed/invalid messages, idle-in-transaction timeout, statement timeout, a health check timing out on a slow server before the next checkout), then an observer checks out with pool_size=1; the transaction / COPY / batch victims also with cleanup_server_connections = false (session state then stays by configuration, open transactions and unread data still must not); plus every generated extended-protocol batch program of C08 as victim (leaving by Terminate / hard drop); plus mid-reply disconnects at every backend message boundary (gated delivery, 1 deviation); distinct = distinct end-to-end histories".into(),
         assumptions: vec![
             "the reference backend's own session state at the observer's first message defines 'clean'".into(),
